@@ -23,10 +23,12 @@ CONFIG = {
              'sequential rebuild invokes only what the model justifies, clean on that state leaves exactly the model tree '
              '(reveals createdDirs); directed observer races additionally with ALL pairs (worker pre-empted at its k-th '
              'lock/file-system operation, observer pre-empted at its j-th source line executed with no lock held: '
-             'unlocked check-then-act on shared state; complete in the thorough tier, time-capped in quick); evaluations = schedules executed and judged; distinct_nontrivial = distinct switch '
+             'unlocked check-then-act on shared state; complete in the thorough tier, time-capped in quick); directed backup '
+             'races (two threads each replace a foreign file / a stale output, the build fails or commits) with ALL single '
+             'pre-emptions of either thread at a source line executed with no lock held; evaluations = schedules executed and judged; distinct_nontrivial = distinct switch '
              'sequences with >=1 pre-emption taken inside library code while another thread had an unfinished call'),
     'exhaustive_layer': 'single pre-emption at every lock operation and library file-system call x every other thread x every start thread, for each scenario whose layer was completed (single_layers_completed)',
-    'gates': ['observer_race_schedules', 'observer_line_pair_runs', 'schedules', 'single_preemption_runs', 'single_layers_completed', 'line_preemption_runs', 'pair_runs', 'pct_runs', 'random_runs', 'stress_builds',
+    'gates': ['observer_race_schedules', 'observer_line_pair_runs', 'backup_race_runs', 'schedules', 'single_preemption_runs', 'single_layers_completed', 'line_preemption_runs', 'pair_runs', 'pct_runs', 'random_runs', 'stress_builds',
               'preemptions_taken', 'scenarios', 'clean_probes', 'rebuild_probes'],
     'assumptions': ['bounded: all single pre-emptions are enumerated for the scenarios visited; two pre-emptions, PCT '
                     'and random walks are samples; more than 3 threads only in free-running stress under the GIL'],
@@ -166,6 +168,56 @@ def run_observer_races(sh, rng):
                     w.discard(tok)
     if complete:
         sh.count('observer_line_pair_layers_completed')
+
+
+def run_backup_races(sh, rng):
+    """directed: two threads each replace a file that is in the way (a foreign file at the target, or a stale output
+    of the previous build) - both move a file to the backup area at the same time - and the build then fails (or
+    commits).  ALL single pre-emptions of either thread at a source line executed with no lock held (divided among
+    the shards): an index / slot / directory of the backup area that is reserved without the lock is handed out
+    twice, and the rollback restores one file less (or the wrong bytes)."""
+    Fok = {'kind': 'bf', 'idx': 10, 'body': [['q', 'read_text', 'in0', 'M'], ['write', '']]}
+    t_end = time.time() + 0.12 * sh.budget_s
+    complete = True
+    for fails in (True, False):
+        for prior in ('foreign-at-targets', 'stale-outputs'):
+            targets = ['bk/x0', 'bk/x1'] if prior == 'foreign-at-targets' else ['bk/y0', 'bk/y1']
+            threads = [[['bf', t, 'Fok', {'catch': True, 'args': [1]}]] for t in targets]
+            root = [['par', threads], ['q', 'walk', '', 'M']] + ([['raise', 'root']] if fails else [])
+            old = [['bf', t, 'Fok', {'catch': True, 'args': [0]}] for t in targets]
+            program = {'funcs': {'Fok': Fok}, 'roots': [root, old]}
+            with Scratch('b') as sc:
+                w = World(sc)
+                w.ext_write('in0', b'input zero')
+                if prior == 'foreign-at-targets':
+                    for i, t in enumerate(targets):
+                        w.ext_write(t, ('foreign file %d in the way' % i).encode())
+                else:
+                    if w.build(program, old, {}, label=1, threads=False).divs:
+                        sh.count('scenario_setup_diverged')
+                        continue
+                tok = w.save()
+                try:
+                    for first in (0, 1):
+                        s0, ok = run_schedule(sh, w, tok, program, {'kind': 'preempt_unlocked', 'j': 10 ** 9,
+                                                                    'first': first}, 'backup-race-probe',
+                                              rebuild_probe=False)
+                        if not ok:
+                            complete = False
+                            continue
+                        m = getattr(s0, 'pu_lines', 0)
+                        sh.count('backup_race_unlocked_lines', m if sh.idx == 0 else 0)
+                        for j in range(1 + sh.idx % sh.n, m + 1, sh.n):
+                            if sh.time_left() <= 0 or time.time() > t_end:
+                                complete = False
+                                break
+                            run_schedule(sh, w, tok, program, {'kind': 'preempt_unlocked', 'j': j, 'first': first},
+                                         'backup-race', rebuild_probe=False)
+                            sh.count('backup_race_runs')
+                finally:
+                    w.discard(tok)
+    if complete:
+        sh.count('backup_race_layers_completed')
 
 
 def observer_unlocked_line_pairs(sh, rng, w, tok, program, t_end):
@@ -317,6 +369,7 @@ def run_shard(sh):
         stress(sh, rng)
     complete_layers = 0
     run_observer_races(sh, rng)
+    run_backup_races(sh, rng)
     while sh.time_left() > 0:
         program, prior, T, parents = gen_scenario(rng)
         with Scratch('t') as sc:
